@@ -32,8 +32,14 @@ SMOOTH = 0.95
 
 @st.composite
 def cases(draw, tier):
-  mspec = draw(G.model_specs(max_nodes=8 if tier == 'thorough' else 6, max_subgraphs=2,
-                             reuse_const=True))
+  if draw(st.integers(0, 4)) == 0:
+    # models with a stateful operator (its variable tensor is reset between
+    # samples, so every sample is measured from the initial state)
+    mspec = draw(G.model_specs(max_nodes=5, min_nodes=2, max_subgraphs=1, dim_choices=[2, 3, 4],
+                               ops=['SVDF', 'SVDF', 'FULLY_CONNECTED', 'TANH', 'ADD', 'MUL', 'RELU']))
+  else:
+    mspec = draw(G.model_specs(max_nodes=8 if tier == 'thorough' else 6, max_subgraphs=2,
+                               reuse_const=True))
   names = engine.op_out_names(mspec)
   if draw(st.integers(0, 1)):
     recipe = {'kind': 'shipped', 'name': draw(st.sampled_from(['default_a8w8_recipe', 'default_a16w8_recipe']))}
@@ -60,6 +66,8 @@ def check_case(case):
     return core.result(False, ['no_calibration_needed'])
   samples = case['samples']
   labels = ['samples=%d' % len(samples), 'sessions=%d' % (len(case['cuts']) + 1)]
+  if any(n['op'] == 'SVDF' for sg in mspec['subgraphs'] for n in sg['nodes']):
+    labels.append('stateful_op')
   # ---- single pass through the public API
   res = None
   for si, sg in enumerate(mspec['subgraphs']):
@@ -72,6 +80,7 @@ def check_case(case):
   want = {}
   for si, sg in enumerate(mspec['subgraphs']):
     for k, ins in enumerate(dataset(mspec, si, samples)):
+      it.reset_all_variables()   # every sample starts from the initial state
       _, runner = interp.run_signature(it, sg['sig'], ins)
       tens = interp.all_tensors(it, interp.subgraph_index(runner))
       for t in sg['tensors']:
